@@ -101,9 +101,16 @@ func (l *baseLeaf) URLPath(vals map[string]string, withOptional bool) string {
 				continue
 			}
 
-			buf.WriteString("{")
-			buf.WriteString(e.BindParameters.Parameters[0].Ident)
-			buf.WriteString("}")
+			for i, p := range e.BindParameters.Parameters {
+				// Other than the first one, only parameters with a regex are bind parameters
+				// (e.g. "capture" of a match all style is not).
+				if i > 0 && p.Value.Regex == nil {
+					continue
+				}
+				buf.WriteString("{")
+				buf.WriteString(p.Ident)
+				buf.WriteString("}")
+			}
 		}
 	}
 
